@@ -877,11 +877,40 @@ def rule_codec_symmetric(ctx: Ctx) -> None:
             continue
         enc = [c for c in ast.walk(put.node) if isinstance(c, ast.Call) and dotted(c.func).endswith(".dumps")]
         dec = [c for c in ast.walk(get.node) if isinstance(c, ast.Call) and dotted(c.func).endswith(".loads")]
-        if not enc and not dec:
+
+        def through_helper(method: FuncInfo, suffix: str) -> ast.AST | None:
+            """The codec call sits in a module-level helper (`_maybe_load(value, flag)`): its condition there, with the helper's
+            parameters replaced by the arguments of the call, and-ed with the condition of the call itself."""
+            import copy as _copy
+
+            from ..flow import bind_args
+
+            for s_ in ctx.cg.sites.get(method.qualname, []):
+                for callee in s_.callees:
+                    if s_.kind != "call" or callee.module.name != MOD or callee.cls is not None:
+                        continue
+                    inner = [c for c in ast.walk(callee.node) if isinstance(c, ast.Call) and dotted(c.func).endswith(suffix)]
+                    if not inner:
+                        continue
+                    g = _copy.deepcopy(_applied_when(ctx, callee, inner[0]))
+                    b = bind_args(s_.node, callee)
+
+                    class Sub(ast.NodeTransformer):
+                        def visit_Name(self, node: ast.Name):  # noqa: N802
+                            return _copy.deepcopy(b[node.id]) if node.id in b else node
+
+                    g = Sub().visit(g)
+                    outer = _applied_when(ctx, method, s_.node)
+                    return ast.BoolOp(op=ast.And(), values=[outer, g]) if not (isinstance(outer, ast.Constant) and outer.value is True) else g
+            return None
+
+        ge0 = _applied_when(ctx, put, enc[0]) if enc else through_helper(put, ".dumps")
+        gd0 = _applied_when(ctx, get, dec[0]) if dec else through_helper(get, ".loads")
+        if ge0 is None and gd0 is None:
             continue
         n += 1
-        if not enc or not dec:
-            ctx.add("6-pickle-guard", put if dec else get, (put if dec else get).node, False, f"{cname}: {'get() deserialises but put() never serialises' if dec else 'put() serialises but get() never deserialises'}", key=f"codec {cname}")
+        if ge0 is None or gd0 is None:
+            ctx.add("6-pickle-guard", put if gd0 is not None else get, (put if gd0 is not None else get).node, False, f"{cname}: {'get() deserialises but put() never serialises' if gd0 is not None else 'put() serialises but get() never deserialises'}", key=f"codec {cname}")
             continue
         conts = set(SHARED[cname])
         vparams = {p_ for p_ in put.param_names()[2:]}  # the stored value
@@ -898,10 +927,19 @@ def rule_codec_symmetric(ctx: Ctx) -> None:
                     keep.append(v)
             return ast.BoolOp(op=ast.And(), values=keep) if keep else ast.Constant(value=True)
 
-        ge, gd = codec_relevant(_applied_when(ctx, put, enc[0])), codec_relevant(_applied_when(ctx, get, dec[0]))
+        def flat(g: ast.AST) -> ast.AST:
+            if isinstance(g, ast.BoolOp) and isinstance(g.op, ast.And):
+                vals = []
+                for v in g.values:
+                    fv = flat(v)
+                    vals += fv.values if isinstance(fv, ast.BoolOp) and isinstance(fv.op, ast.And) else [fv]
+                return ast.BoolOp(op=ast.And(), values=vals)
+            return g
+
+        ge, gd = codec_relevant(flat(ge0)), codec_relevant(flat(gd0))
         atoms = sorted(set(bool_atoms(ge)) | set(bool_atoms(gd)))
         if len(atoms) > 8:
-            ctx.add("6-pickle-guard", put, enc[0], None, f"UNDECIDED: {cname}: too many conditions around dumps/loads to compare", key=f"codec {cname}")
+            ctx.add("6-pickle-guard", put, enc[0] if enc else put.node, None, f"UNDECIDED: {cname}: too many conditions around dumps/loads to compare", key=f"codec {cname}")
             continue
         diff = None
         for vals in itertools.product((True, False), repeat=len(atoms)):
@@ -911,7 +949,7 @@ def rule_codec_symmetric(ctx: Ctx) -> None:
                 diff = env
                 break
         one_sided = sorted((set(bool_atoms(ge)) ^ set(bool_atoms(gd))))
-        ctx.tri("6-pickle-guard", put, enc[0], diff is None and not one_sided, diff is not None, f"{cname}: put() serialises exactly when get() deserialises (`{norm(ge)[:60]}`)",
+        ctx.tri("6-pickle-guard", put, enc[0] if enc else put.node, diff is None and not one_sided, diff is not None, f"{cname}: put() serialises exactly when get() deserialises (`{norm(ge)[:60]}`)",
                 f"{cname}: put() serialises under `{norm(ge)[:80]}` but get() deserialises under `{norm(gd)[:60]}`: they differ when {diff} - "
                 f"a value stored as it is (condition {one_sided[:1]} is known to one side only) is unpickled on the way out: a cached call returns something else than the first call, or raises",
                 f"{cname}: guards of dumps/loads use different conditions {one_sided}", key=f"codec {cname}")
@@ -1059,8 +1097,9 @@ def rule_stores(ctx: Ctx) -> None:
     wp = None if ok else cfg.witness_path(ENTRY, EXIT, w)
     ctx.add("8-stores", dp, dp.node, ok, "DiskCache.put pickles the value to its file on every path" if ok else "DiskCache.put can return without writing the value", key="DiskCache.put stores",
             path=cfg.describe(wp, dp.module.relpath) if wp else None)
-    lp = [c for c in ast.walk(dp.node) if isinstance(c, ast.Call) and norm(c.func) == "self.lru_cache.put"]
     d = Defs(dp)
+    # the front cache by whatever local name: `memory = self.lru_cache if self.with_lru_cache else None; memory.put(...)`
+    lp = [c for c in ast.walk(dp.node) if isinstance(c, ast.Call) and isinstance(c.func, ast.Attribute) and c.func.attr == "put" and "self.lru_cache" in norm(d.resolve(c.func.value))]
     same = bool(lp) and [norm(d.resolve(a)) for a in lp[0].args] == [key, value]
     ctx.tri("8-stores", dp, lp[0] if lp else dp.node, same, not lp, "the in-memory LRU of a DiskCache is updated with the same value",
             "DiskCache.put never refreshes its in-memory LRU: get() keeps returning the previous value", "arguments of self.lru_cache.put not recognised", key="DiskCache.put lru")
